@@ -139,7 +139,7 @@ Arguments OutOfFuel {A}.
 Definition rest (buf : bytes) (pos : N) : bytes :=
   if len buf <=? pos then [] else skipn (N.to_nat pos) buf.
 
-(* Cursor::read: up to n bytes (n is 8 or 16 here) *)
+(* Cursor::read (repeated until n bytes or end of data for the header): up to n bytes (n is 8 or 16 here) *)
 Definition rd (buf : bytes) (pos n : N) : bytes * N :=
   let r := firstn (N.to_nat n) (rest buf pos) in (r, pos + len r).
 
@@ -150,16 +150,16 @@ Definition rd_exact (buf : bytes) (pos n : N) : option (bytes * N) :=
 (* unread_bytes(reader, HEADER_SIZE) *)
 Definition unread (pos : N) : option N := if pos <? HEADER_SIZE then None else Some (pos - HEADER_SIZE).
 
-Definition pad8 (b : bytes) : bytes := b ++ repeat 0 (8 - length b).
-
-(* BoxReader::read_header: Some (name, size, pos') or None for an I/O error.  name 0 is BoxType::Empty. *)
+(* BoxReader::read_header: Some (name, size, pos') or None for an error.  name 0 is BoxType::Empty.
+   The 8 header bytes are read completely (loop over Cursor::read): nothing left = Empty, a truncated header is
+   UnexpectedEof (every caller maps the error to its own). *)
 Definition read_header (buf : bytes) (pos : N) : option (N * N * N) :=
   let '(b, p1) := rd buf pos 8 in
   if len b =? 0 then Some (0, 0, p1)                       (* end of file *)
+  else if len b <? 8 then None                             (* truncated header *)
   else
-    let b8 := pad8 b in                                    (* a short read leaves zeroes in the buffer *)
-    let size := de (firstn 4 b8) in
-    let typ := de (skipn 4 b8) in
+    let size := de (firstn 4 b) in
+    let typ := de (skipn 4 b) in
     if size =? 1 then
       match rd_exact buf p1 8 with
       | None => None
@@ -353,7 +353,7 @@ Fixpoint read_super (fuel : nat) (depth : N) (buf : bytes) (pos : N) {struct fue
     | Some (name, size, p1) =>
       if name =? 0 then Err EUnexpectedEof
       else if negb (name =? T_JUMB) then Err EInvalidJumbfHeader
-      else if U64 <=? pos + size then Panic                (* start_pos + jumb_header.size, debug build *)
+      else if U64 <=? pos + size then Err EInvalidJumbBox  (* start_pos.checked_add(jumb_header.size) *)
       else
         let dest := pos + size in
         match read_header buf p1 with
